@@ -55,6 +55,8 @@ def used_fids(sc):
         for st in body:
             if st[0] == 'bf':
                 used.add(st[2])
+            elif st[0] == 'bfmany':
+                used.add(st[3])
             elif st[0] == 'sb':
                 used.add(st[1])
             elif st[0] == 'if':
